@@ -17,6 +17,7 @@ DEBIT = ["send", "send_erc20", "multisend", "dao_fund", "gov_deposit", "convert_
 DELEG = ["delegate", "exec_delegate", "pc_delegate", "pc_delegate_contract", "create_validator", "exec_create_validator",
          "pc_create_validator", "pc_create_validator_contract", "convert_into_stake"]
 OTHER = ["undelegate", "clawback", "merge", "convert_into"]
+INCOMING = ["fund_extra", "in_send_pair", "in_multisend", "in_eth", "in_convert_coin", "in_convert_erc20"]   # third parties pay into the account
 CONVERT = ["convert_back", "exec_convert_back"]   # MsgConvertVestingAccount, by the account and through authz
 REBOND = ["cancel_unbond", "exec_cancel_unbond", "pc_cancel_unbond"]   # driven, no floor: they cannot take coins from the account
 
@@ -68,6 +69,8 @@ def _round(c, wd, scripts, nrandom, seed, counts, samples):
             o = json.loads(line)
             if o["ev"] == "reset":
                 counts["scenarios:" + o["src"]] += 1
+                if o["cfg"]["init"].get("plain"):
+                    counts["scenarios:plain-start"] += 1
                 if not o["setupOK"]:
                     counts["setup-incomplete"] += 1
                 continue
@@ -136,8 +139,9 @@ def run(c):
     c.samples = samples
     c.extra["trace_lines"] = lines
     c.extra["transactions_validated"] = counts["tx"]
-    c.extra["by_path"] = {k: {"accepted": counts["ok:" + k], "refused": counts["refused:" + k]} for k in DEBIT + DELEG + OTHER + CONVERT + REBOND}
+    c.extra["by_path"] = {k: {"accepted": counts["ok:" + k], "refused": counts["refused:" + k]} for k in DEBIT + DELEG + OTHER + CONVERT + INCOMING + REBOND}
     c.extra["slash_blocks"] = counts["slash-blocks"]
+    c.extra["plain_start_scenarios"] = counts["scenarios:plain-start"]
     c.extra["scenarios"] = {"script": counts["scenarios:script"], "random": counts["scenarios:random"], "setup_incomplete": counts["setup-incomplete"]}
     c.extra["conformance_divergence_count"] = ndiv
     c.extra["conformance_divergences_by_kind"] = dict(divs.most_common(25))
@@ -163,7 +167,7 @@ def run(c):
     for k in DEBIT + DELEG + CONVERT:
         if counts["ok:" + k] < 1 or counts["refused:" + k] < 1:
             floor_msgs.append("path %s accepted=%d refused=%d" % (k, counts["ok:" + k], counts["refused:" + k]))
-    for k in OTHER:
+    for k in OTHER + INCOMING:
         if counts["ok:" + k] < 1:
             floor_msgs.append("%s never succeeded" % k)
     if counts["slash-blocks"] < 1:
